@@ -4,7 +4,7 @@ import re
 from lib import *
 from batches import core
 
-TRUSTED = list(core.TRUSTED) + []
+TRUSTED = list(core.TRUSTED) + ['<[T', 'deref']   # '<[T' is how the ledger scanner names `assume_specification [<[T]>::to_vec]`
 VERUS_ARGS = ['--rlimit', '30']
 
 OFFSET_RULE = 'R-OFFSET'
@@ -175,6 +175,220 @@ pub type Offset = usize;''')
         f'[C01:progress] res is Ok ==> final(input).rv().len < {B0}.len',
     ], owners=['C01', 'C02'])
     sk.add('read::unit', puh)
+
+    # ---------------------------------------------------------------- section wrappers and unit header iterators
+    for (sec, secfield, itname, secid, ts) in [('DebugInfo', 'debug_info_section', 'DebugInfoUnitHeadersIter', 'SectionId::DebugInfo', 'false'),
+                                                ('DebugTypes', 'debug_types_section', 'DebugTypesUnitHeadersIter', 'SectionId::DebugTypes', 'true')]:
+        sk.add('read::unit', un.item(rf'^pub struct {sec}<R> \{{').clean())
+        sk.add('read::unit', un.item(rf'^pub struct {itname}<R: Reader>').clean(rejrec=['R']))
+        di = un.item(rf'^impl<R: Reader> {sec}<R> \{{', label=sec)
+        di.custom('R-CLONE', f'self.{secfield}.clone()', f'reader_clone(&self.{secfield})', count=2)
+        di.clean()
+        di.own(['C01', 'C02'])
+        di.insert_members(f'    pub closed spec fn g_sec(&self) -> RView {{ self.{secfield}.rv() }}')
+        di.splice('units', ret='res', ensures=['[C02:units-start] res.g_input() == self.g_sec() && res.g_offset() == 0'])
+        if sec == 'DebugInfo':
+            AT = 'advanced(self.g_sec(), offset.0 as nat)'
+            di.splice('header_from_offset', ret='res', requires=[LENFITS.format('self.g_sec()').replace('.rv()', '')], canary=True, ensures=[
+                f'[C02:hdr-at-offset] res matches Ok(h) ==> offset.0 <= self.g_sec().len && unit_hdr_ok({AT}, false) && h.g_unit_offset() == offset.0 && h.g_section() == SectionId::DebugInfo '
+                f'&& h.wf() && h.g_unit_length() == unit_hdr_layout({AT}, false).len && h.g_encoding().version == unit_hdr_layout({AT}, false).version '
+                f'&& window({AT}, h.g_buf(), unit_hdr_layout({AT}, false).total(), (unit_hdr_layout({AT}, false).unit_end() - unit_hdr_layout({AT}, false).total()) as nat)',
+                '[C02:hdr-at-offset] offset.0 > self.g_sec().len ==> res is Err'])
+        sk.add('read::unit', di)
+        ui = un.item(rf'^impl<R: Reader> {itname}<R> \{{', label=itname).clean()
+        ui.own(['C01', 'C02'])
+        ui.insert_members("""    pub closed spec fn g_input(&self) -> RView { self.input.rv() }
+    pub closed spec fn g_offset(&self) -> nat { self.offset.0 as nat }
+    /// the section offset never overflows: it is the distance of `input` from the start of the section
+    pub open spec fn inv(&self) -> bool { self.g_offset() + self.g_input().len <= usize::MAX }""")
+        OI, FI = 'old(self).g_input()', 'final(self).g_input()'
+        L = f'unit_hdr_layout({OI}, {ts})'
+        ui.splice('next', ret='res', requires=['[C02:units-inv] old(self).inv()'], canary=True, ensures=[
+            '[C02:units-inv] final(self).inv()',
+            f'[C01:iter-end] {OI}.len == 0 ==> (res matches Ok(None)) && {FI} == {OI} && final(self).g_offset() == old(self).g_offset()',
+            f'[C01:iter-end] res matches Ok(None) ==> {OI}.len == 0',
+            f'[C01:iter-err-empties] res is Err ==> {FI}.len == 0',
+            f'[C01:iter-progress] res matches Ok(Some(_)) ==> {FI}.len < {OI}.len',
+            f'[C01:frame] res is Ok ==> within({OI}, {FI})',
+            f'[C01:frame] {FI}.root == {OI}.root && {FI}.be == {OI}.be',
+            f'[C02:units-header] res matches Ok(Some(h)) ==> unit_hdr_ok({OI}, {ts}) && h.wf() && h.g_section() == {secid} '
+            f'&& h.g_unit_length() == {L}.len && h.g_encoding().format == {L}.fmt && h.g_encoding().version == {L}.version '
+            f'&& h.g_encoding().address_size == {L}.addr_size && h.g_abbrev_offset() == {L}.abbrev '
+            f'&& window({OI}, h.g_buf(), {L}.total(), ({L}.unit_end() - {L}.total()) as nat)',
+            f'[C02:units-next-unit] res matches Ok(Some(h)) ==> adv({OI}, {FI}, {L}.unit_end())',
+            '[C02:unit-offset] res matches Ok(Some(h)) ==> h.g_unit_offset() == old(self).g_offset()',
+            f'[C02:unit-offset] res matches Ok(Some(h)) ==> final(self).g_offset() - {FI}.start == old(self).g_offset() - {OI}.start',
+        ])
+        sk.add('read::unit', ui)
+
+    populate_abbrev(ctx, sk)
+    return sk
+
+
+ABBREV_PRELUDE = """
+// std semantics assumed (listed in TRUSTED): a slice's to_vec is a copy of the slice
+pub assume_specification<T: Clone>[<[T]>::to_vec](s: &[T]) -> (r: Vec<T>)
+    ensures r@ == s@;
+"""
+
+# one attribute specification / the list: DWARF 5 section 7.5.3 -- (uleb name, uleb form[, sleb value if DW_FORM_implicit_const]) ... (0, 0)
+AS_AT = 'aspec_at(old(input).rv(), 0)'
+
+
+def populate_abbrev(ctx, sk):
+    ab = Source('read/abbrev.rs', ctx)
+    sk.mods['read']['uses'] += '\npub use self::abbrev::*;'
+    sk.module('read::abbrev', """use std::collections::btree_map;
+use std::vec::Vec;
+use core::convert::TryFrom;
+use core::ops::Deref;
+use crate::common::{DebugAbbrevOffset, Encoding, SectionId};
+use crate::constants;
+use crate::read::{Error, Reader, ReaderOffset, Result};
+use crate::read::reader_clone;
+use crate::vspec::*;
+use crate::read::unit::{ASpec, aspec_at, aspec_size, aspec_end_marker, aspecs, aspecs_size};""")
+    sk.add('read::abbrev', ABBREV_PRELUDE, label='abbrev-prelude')
+    O, F = 'old(input).rv()', 'final(input).rv()'
+    FRAME = f'[C01:frame] within({O}, {F})'
+    PROGRESS = f'[C01:progress] res is Ok ==> {F}.len < {O}.len'
+
+    # ---- AttributeSpecification
+    sk.add('read::abbrev', ab.item(r'^pub struct AttributeSpecification \{').clean())
+    asi = ab.item(r'^impl AttributeSpecification \{', label='AttributeSpecification')
+    asi.drop(['size'])
+    asi.clean()
+    asi.own(['C01', 'C02'])
+    asi.insert_members("""    /// the (name, form, implicit const) triple this specification stands for
+    pub closed spec fn sp(&self) -> ASpec { ASpec { name: self.name.0 as nat, form: self.form.0 as nat, ic: self.implicit_const_value as int } }""")
+    asi.splice('new', ret='res', requires=[
+        '[C02:aspec-new-pre] (form == constants::DW_FORM_implicit_const && implicit_const_value is Some) || (form != constants::DW_FORM_implicit_const && implicit_const_value is None)'],
+        ensures=['res.sp() == (ASpec { name: name.0 as nat, form: form.0 as nat, ic: (match implicit_const_value { Some(v) => v as int, None => 0 }) })'], canary=True)
+    asi.splice('name', ret='res', ensures=['[C02:aspec-accessor] res.0 == self.sp().name'])
+    asi.splice('form', ret='res', ensures=['[C02:aspec-accessor] res.0 == self.sp().form'])
+    asi.splice('implicit_const_value', ret='res', ensures=['[C02:aspec-accessor] res == (if self.sp().form == 0x21 { Some(self.sp().ic as i64) } else { None::<i64> })'])
+    asi.splice('parse', ret='res', ensures=[
+        f'[C02:aspec-value] res matches Ok(Some(a)) ==> a.sp() == {AS_AT} && !aspec_end_marker({AS_AT}) && adv({O}, {F}, aspec_size({O}, 0))',
+        f'[C02:aspec-end] res matches Ok(None) ==> aspec_end_marker({AS_AT}) && adv({O}, {F}, aspec_size({O}, 0))',
+        f'[C02:aspec-zero] res is Ok ==> ({AS_AT}.name == 0 <==> {AS_AT}.form == 0)',
+        FRAME, PROGRESS])
+    sk.add('read::abbrev', asi)
+
+    # ---- Attributes (small-vector of specifications)
+    sk.add('read::abbrev', ab.item(r'^const MAX_ATTRIBUTES_INLINE').clean())
+    sk.add('read::abbrev', ab.item(r'^pub\(crate\) enum Attributes \{').clean())
+    ati = ab.item(r'^impl Attributes \{', label='Attributes').clean()
+    ati.own(['C01', 'C02'])
+    ati.insert_members("""    pub closed spec fn view(&self) -> Seq<AttributeSpecification> {
+        match self { Attributes::Inline { buf, len } => buf@.take(*len as int), Attributes::Heap(list) => list@ }
+    }
+    pub open spec fn spv(&self) -> Seq<ASpec> { Seq::new(self.view().len(), |i: int| self.view()[i].sp()) }
+    /// representation invariant of the small-vector
+    pub closed spec fn inv(&self) -> bool {
+        match self { Attributes::Inline { buf, len } => *len <= 5, Attributes::Heap(list) => true }
+    }""")
+    ati.splice('new', ret='res', ensures=['res.inv() && res.view() == Seq::<AttributeSpecification>::empty()'])
+    ati.splice('push', requires=['old(self).inv()'], ensures=['final(self).inv()', '[C02:attrs-push] final(self).view() == old(self).view().push(attr)'])
+    sk.add('read::abbrev', ati)
+    # `impl Deref for Attributes`: a trait-impl method cannot carry a `requires`, and the slice `&buf[..*len]` is only in bounds under
+    # the representation invariant.  R-IMPL (as in B-eslice): the real impl block is verified verbatim as an impl of the local trait
+    # `DerefImpl` (same signature + precondition `inv()`); the `core::ops::Deref` impl that auto-deref call sites need is an R-STUB
+    # delegating to it, with the assumed contract "under inv() the result is the view".
+    sk.add('read::abbrev', """
+pub trait DerefImpl {
+    type Target: ?Sized;
+    spec fn deref_pre(&self) -> bool;
+    fn deref(&self) -> &Self::Target requires self.deref_pre();
+}
+impl Deref for Attributes {
+    type Target = [AttributeSpecification];
+    #[verifier::external_body]
+    fn deref(&self) -> (res: &[AttributeSpecification])
+        ensures self.inv() ==> res@ == self.view()
+    { <Self as DerefImpl>::deref(self) }
+}
+""", label='DerefImpl')
+    atd = ab.item(r'^impl Deref for Attributes \{', label='Deref for Attributes')
+    atd.custom('R-IMPL', 'impl Deref for Attributes', 'impl DerefImpl for Attributes')
+    atd.clean()
+    atd.own(['C01', 'C02'])
+    atd.insert_members('    open spec fn deref_pre(&self) -> bool { self.inv() }')
+    atd.splice('deref', ret='res', ensures=['[C02:attrs-deref] res@ == self.view()'])
+    sk.add('read::abbrev', atd)
+
+    # ---- Abbreviation
+    # Debug/PartialEq/Eq of Abbreviation(s) go through hand-written impls on Attributes (fmt, slice ==) that are not extracted
+    sk.add('read::abbrev', ab.item(r'^pub struct Abbreviation \{').custom('R-ATTR', '#[derive(Debug, Clone, PartialEq, Eq)]', '#[derive(Clone)]').clean())
+    abi = ab.item(r'^impl Abbreviation \{', label='Abbreviation').clean()
+    abi.own(['C01', 'C02'])
+    abi.insert_members("""    pub closed spec fn g_code(&self) -> u64 { self.code }
+    pub closed spec fn g_tag(&self) -> u16 { self.tag.0 }
+    pub closed spec fn g_children(&self) -> u8 { self.has_children.0 }
+    pub closed spec fn g_attrs(&self) -> Seq<AttributeSpecification> { self.attributes.view() }
+    pub closed spec fn g_specs(&self) -> Seq<ASpec> { self.attributes.spv() }
+    /// the attribute list satisfies its representation invariant
+    pub closed spec fn wf(&self) -> bool { self.attributes.inv() }""")
+    abi.splice('new', ret='res', requires=['[C02:abbrev-code-nonzero] code != 0', 'attributes.inv()'], canary=True, ensures=[
+        'res.wf() && res.g_code() == code && res.g_tag() == tag.0 && res.g_children() == has_children.0 && res.g_attrs() == attributes.view() && res.g_specs() == attributes.spv()'])
+    abi.splice('code', ret='res', ensures=['[C02:abbrev-accessor] res == self.g_code()'])
+    abi.splice('tag', ret='res', ensures=['[C02:abbrev-accessor] res.0 == self.g_tag()'])
+    abi.splice('has_children', ret='res', ensures=['[C02:abbrev-has-children] res == (self.g_children() == 0x01)'])
+    abi.splice('attributes', ret='res', requires=['self.wf()'], ensures=['[C02:abbrev-accessor] res@ == self.g_attrs()'])
+    abi.splice('parse_tag', ret='res', ensures=[
+        f'[C02:abbrev-tag] res matches Ok(t) ==> t.0 == {O}.uleb(0) && t.0 != 0 && adv({O}, {F}, {O}.leb_len(0))', FRAME, PROGRESS])
+    abi.splice('parse_has_children', ret='res', ensures=[
+        f'[C02:abbrev-children] res matches Ok(c) ==> c.0 == {O}.at(0) && adv({O}, {F}, 1)',
+        f'[C02:abbrev-children] res is Err <==> {O}.len < 1 || {O}.at(0) > 1', FRAME, PROGRESS])
+    abi.splice('parse_attributes', ret='res', ensures=[
+        f'[C02:abbrev-attrs] res matches Ok(a) ==> a.inv() && a.spv() == aspecs({O}, 0) && adv({O}, {F}, aspecs_size({O}, 0))', FRAME, PROGRESS],
+        loops={0: f'invariant attrs.inv(), within({O}, input.rv()), aspecs({O}, 0) == attrs.spv() + aspecs({O}, input.rv().start - {O}.start), '
+                  f'aspecs_size({O}, 0) == (input.rv().start - {O}.start) + aspecs_size({O}, input.rv().start - {O}.start),\n decreases input.rv().len'})
+    P1 = f'{O}.leb_len(0) as int'
+    P2 = f'({O}.leb_len(0) + {O}.leb_len({O}.leb_len(0) as int)) as int'
+    abi.splice('parse', ret='res', ensures=[
+        f'[C02:abbrev-end] {O}.len == 0 ==> (res matches Ok(None)) && {F} == {O}',
+        f'[C02:abbrev-end] res matches Ok(None) ==> {O}.len == 0 || ({O}.uleb(0) == 0 && adv({O}, {F}, {O}.leb_len(0)))',
+        f'[C02:abbrev-decl] res matches Ok(Some(a)) ==> a.wf() && a.g_code() == {O}.uleb(0) && a.g_code() != 0 && a.g_tag() == {O}.uleb({P1}) && a.g_tag() != 0 '
+        f'&& a.g_children() == {O}.at({P2}) && a.g_children() <= 1 && a.g_specs() == aspecs({O}, {P2} + 1) && adv({O}, {F}, ({P2} + 1 + aspecs_size({O}, {P2} + 1)) as nat)',
+        FRAME, f'[C01:progress] res matches Ok(Some(_)) ==> {F}.len < {O}.len'])
+    sk.add('read::abbrev', abi)
+
+    # ---- Abbreviations
+    sk.add('read::abbrev', ab.item(r'^pub struct Abbreviations \{').custom('R-ATTR', '#[derive(Debug, Default, Clone)]', '#[derive(Clone)]').clean())
+    abs_ = ab.item(r'^impl Abbreviations \{', label='Abbreviations')
+    # R-ENTRY: `match map.entry(k) { Occupied(_) => A, Vacant(e) => { e.insert(v); B } }` is, by the documented semantics of
+    # the std Entry API, `if map.contains_key(&k) { A } else { map.insert(k, v); B }`.  The Entry types hold a hidden `&mut` to the
+    # map whose effect cannot be specified in Verus (DESIGN P20); with this logged rewrite the whole body of `insert` stays verified.
+    abs_.custom_re('R-ENTRY',
+                   r'match self\.map\.entry\(abbrev\.code\) \{\s*btree_map::Entry::Occupied\(_\) => Err\(\(\)\),\s*btree_map::Entry::Vacant\(entry\) => \{\s*entry\.insert\(abbrev\);\s*Ok\(\(\)\)\s*\}\s*\}',
+                   'if self.map.contains_key(&abbrev.code) { Err(()) } else { self.map.insert(abbrev.code, abbrev); Ok(()) }')
+    abs_.clean()
+    abs_.own(['C01', 'C02'])
+    abs_.insert_members("""    /// abstract view: code -> declaration
+    pub closed spec fn view(&self) -> IMap<u64, Abbreviation> {
+        IMap::new(|c: u64| (1 <= c <= self.vec@.len()) || self.map@.contains_key(c),
+                 |c: u64| if 1 <= c <= self.vec@.len() { self.vec@[c - 1] } else { self.map@[c] })
+    }
+    /// representation invariant (DESIGN C02): dense vector for codes 1..=len, map for the rest, every declaration stored under its own code
+    pub closed spec fn inv(&self) -> bool {
+        &&& forall|i: int| 0 <= i < self.vec@.len() ==> (#[trigger] self.vec@[i]).g_code() == i + 1 && self.vec@[i].wf()
+        &&& forall|k: u64| #[trigger] self.map@.contains_key(k) ==> k > self.vec@.len() && self.map@[k].g_code() == k && self.map@[k].wf()
+    }""")
+    abs_.splice('empty', ret='res', ensures=['[C02:abbrevs-empty] res.inv() && res.view() =~= IMap::<u64, Abbreviation>::empty()'])
+    abs_.splice('insert', ret='res', requires=['[C02:abbrevs-inv] old(self).inv()', '[C02:abbrev-code-nonzero] abbrev.g_code() != 0', 'abbrev.wf()'], canary=True, ensures=[
+        '[C02:abbrevs-inv] final(self).inv()',
+        '[C02:abbrevs-insert-dup] res is Err <==> old(self).view().contains_key(abbrev.g_code())',
+        '[C02:abbrevs-insert] res is Ok ==> final(self).view() =~= old(self).view().insert(abbrev.g_code(), abbrev)',
+        '[C02:abbrevs-insert-dup] res is Err ==> final(self).view() =~= old(self).view()'])
+    abs_.splice('get', ret='res', requires=['[C02:abbrevs-inv] self.inv()'], canary=True, ensures=[
+        '[C02:abbrevs-get] res matches Some(a) ==> self.view().contains_key(code) && *a == self.view()[code] && a.g_code() == code && a.wf()',
+        '[C02:abbrevs-get] res is None ==> !self.view().contains_key(code)',
+        '[C02:abbrevs-get] self.view().contains_key(0) == false'])
+    abs_.splice('parse', ret='res', ensures=[
+        '[C02:abbrevs-inv] res matches Ok(a) ==> a.inv()',
+        FRAME],
+        loops={0: f'invariant abbrevs.inv(), within({O}, input.rv()),\n decreases input.rv().len'})
+    sk.add('read::abbrev', abs_)
     return sk
 
 
